@@ -30,18 +30,6 @@ Qed.
 (* ---------------------------------------------------------------------- *)
 (* C04_poll_home_only                                                       *)
 
-(* only the executor's own labels poll and drop the future *)
-Lemma polls_only_exec s l s' : step fixed s l = Some s' -> polls s' <> polls s -> l = EPollBegin.
-Proof.
-  intros Hs. pres_start s l Hs; cbn; intros Hne; try reflexivity; exfalso; apply Hne; reflexivity.
-Qed.
-
-Lemma fdrops_only_exec s l s' : step fixed s l = Some s' -> fdrops s' <> fdrops s ->
-  exec_label l = true /\ thread_of l = THome.
-Proof.
-  intros Hs. pres_start s l Hs; cbn; intros Hne; try (split; reflexivity); exfalso; apply Hne; reflexivity.
-Qed.
-
 Lemma run_snapshot s s' c : step fixed s ERunStart = Some s' -> ep s' = ERun c ->
   c = completed (wd s) /\ not_cancelled (wd s) = true.
 Proof.
